@@ -17,7 +17,7 @@ SESS_MOVES = ['seg_nostart_unknown', 'seg_end_unknown', 'ack_unknown', 'ack_fini
               'reject_msg', 'term', 'term_twice', 'term_reply', 'ch_again',
               'ack_other_conn', 'ack_other_conn_end', 'refuse_other_conn', 'xfer_start_2g', 'xfer_start_max']
 PRE_INIT_MOVES = ['seg', 'ack', 'refuse', 'term', 'ka', 'unknown_type', 'ack_early_own', 'refuse_early_own']
-PRE_CH_MOVES = ['bad_magic', 'bad_version', 'seg_first']
+PRE_CH_MOVES = ['bad_magic', 'bad_version', 'seg_first', 'bad_magic_then_good']
 
 
 class Bystander(object):
@@ -264,6 +264,9 @@ class Adversary(object):
             self.send(codec.enc_refuse(1, 2))
         elif name == 'bad_magic':
             self.send(b'DTN!' + bytes([4, 0]))
+        elif name == 'bad_magic_then_good':
+            # a contact header with the wrong magic and a valid one behind it in the same write
+            self.send(b'xtn!' + bytes([4, 0]) + codec.enc_contact(0))
         elif name == 'bad_version':
             self.send(codec.enc_contact(0, version=3))
         elif name == 'seg_first':
